@@ -17,5 +17,5 @@ func init() {
 		Notes: []string{"'pinned' is read with nitro's documented in-order rule (snapshot n's garbage is released only when every snapshot <= n is closed)"}})
 }
 
-func c01ConcJobs(tier string) []Job { return nil }
-func c06ConcJobs(tier string) []Job { return nil }
+func c01ConcJobs(tier string) []Job { return concJobs("C01", tier) }
+func c06ConcJobs(tier string) []Job { return concJobs("C06", tier) }
